@@ -64,20 +64,33 @@ class AFloat:
     def __repr__(self):
         return f"AFloat{self.width}({B.show_vec(self.bits)})"
 
-_STRUCT = {'I': (4, 'int'), 'i': (4, 'sint'), 'f': (4, 'float'), 'd': (8, 'float'), 'Q': (8, 'int'), 'H': (2, 'int'), 'B': (1, 'int')}
+_STRUCT = {'I': (4, 'int'), 'L': (4, 'int'), 'i': (4, 'sint'), 'l': (4, 'sint'), 'f': (4, 'float'), 'd': (8, 'float'), 'Q': (8, 'int'), 'q': (8, 'sint'), 'H': (2, 'int'), 'h': (2, 'sint'), 'B': (1, 'int'), 'b': (1, 'sint'), 'x': (1, 'pad')}
 
 def _struct_fmt(fmt):
-    """'<I' -> (byte order, size, kind) for the single-item formats the helpers use; None otherwise"""
+    """'<I' / '>BI' / '<5BI' -> (byte order, [(size, kind), ...]) for formats made of the integer / float codes (with repeat counts); None otherwise.
+    Only the explicit-order prefixes (no native alignment)."""
     if not isinstance(fmt, str) or not fmt:
         return None
-    order = 'little'          # native order on the platforms the library runs on; '<' and '=' say so explicitly
-    f = fmt
-    if f[0] in '<>=!@':
-        order = 'big' if f[0] in '>!' else 'little'
-        f = f[1:]
-    if f not in _STRUCT:
+    f = fmt.replace(' ', '')
+    if f[0] not in '<>=!':
+        if len(f) == 1 and f in _STRUCT:          # native order, one item: no padding involved
+            return ('little', [_STRUCT[f]])
         return None
-    return (order,) + _STRUCT[f]
+    order = 'big' if f[0] in '>!' else 'little'
+    f = f[1:]
+    fields = []
+    num = ''
+    for ch in f:
+        if ch.isdigit():
+            num += ch
+            continue
+        if ch not in _STRUCT:
+            return None
+        fields.extend([_STRUCT[ch]] * (int(num) if num else 1))
+        num = ''
+    if num or not fields:
+        return None
+    return order, fields
 
 class ALin:
     """an integer known as a linear combination of whole input bytes: const + sum(coeff * byte), optionally reduced mod `mod`
@@ -92,10 +105,43 @@ class ALin:
     def key(self):
         return (tuple(sorted(self.coeffs.items(), key=repr)), self.const, self.mod)
 
+def lin_to_vec(l):
+    """an ALin whose bytes sit at disjoint power-of-two places (b0 + 256*b1 + ...) as a bit vector; None otherwise"""
+    if l.mod is not None or not isinstance(l.const, int) or l.const < 0:
+        return None
+    vec = {}
+    for src, c in l.coeffs.items():
+        if not isinstance(c, int) or c <= 0 or c & (c - 1):
+            return None
+        sh = c.bit_length() - 1
+        bits = list(src[1]) if isinstance(src, tuple) and len(src) == 2 and src[0] == 'bits' else [(src, k) for k in range(8)]
+        for k, b in enumerate(bits):
+            if b == 0:
+                continue
+            if sh + k in vec:
+                return None
+            vec[sh + k] = b
+    for k in range(l.const.bit_length()):
+        if (l.const >> k) & 1:
+            if k in vec:
+                return None
+            vec[k] = 1
+    n = max(vec) + 1 if vec else 1
+    return [vec.get(k, 0) for k in range(n)]
+
 def as_lin(x):
-    """AInt / ALin -> ALin or None (an abstract int is linear only when it is exactly one whole input byte)"""
+    """AInt / ALin -> ALin or None (an abstract int is linear only when it is exactly one whole input byte, possibly shifted)"""
     if isinstance(x, ALin):
         return x
+    if isinstance(x, AInt) and x.v is None:
+        v0 = x.vec()
+        if v0 is not None:
+            v0 = B.trim(v0)
+            sh = 0
+            while sh < len(v0) and v0[sh] == 0:
+                sh += 1
+            if sh and len(v0) - sh == 8 and all(isinstance(b, tuple) and b[0] == v0[sh][0] and b[1] == k for k, b in enumerate(v0[sh:])):
+                return ALin({v0[sh][0]: 1 << sh})
     if isinstance(x, AInt):
         if x.v is not None and isinstance(x.v, int):
             return ALin({}, x.v)
@@ -711,6 +757,10 @@ class Interp:
                         m.cache[e.id] = self.expr(m.assigns[e.id], {})
                     return m.cache[e.id]
             return AOpaque(e.id)
+        if isinstance(e, ast.NamedExpr) and isinstance(e.target, ast.Name):
+            v = self.expr(e.value, env)
+            env[e.target.id] = v
+            return v
         if isinstance(e, ast.Attribute):
             o = self.expr(e.value, env)
             if isinstance(o, AObj):
@@ -929,6 +979,13 @@ class Interp:
             s = a.same(b)
             if s is True and isinstance(op, (ast.Eq, ast.NotEq)):
                 return isinstance(op, ast.Eq)
+            if isinstance(op, (ast.Eq, ast.NotEq)) and (a.v is None) != (b.v is None):
+                # a byte of the class "neither 0xAA nor 0x55" against one of those two values
+                x, c = (a, b.v) if a.v is None else (b, a.v)
+                vec = x.vec()
+                if vec is not None and c in MARKER_BYTES and len(vec) >= 8 and all(isinstance(bit, tuple) and isinstance(bit[0], tuple) and bit[0][:1] == ('x',) and bit[0] == vec[0][0] and bit[1] == k
+                                                                                  for k, bit in enumerate(vec[:8])) and all(bit == 0 for bit in vec[8:]):
+                    return isinstance(op, ast.NotEq)
             # a provenance vector with constant high bits can sometimes be decided; otherwise unknown
             raise Unknown(f"comparison of abstract ints {a!r} {type(op).__name__} {b!r} at line {getattr(node, 'lineno', 0)}")
         if isinstance(a, AOpaque) and isinstance(b, AOpaque) and isinstance(op, (ast.Eq, ast.NotEq, ast.Is, ast.IsNot)) and '.' in a.what and '.' in b.what \
@@ -959,6 +1016,17 @@ class Interp:
     def binop(self, op, a, b):
         if isinstance(a, AOpaque) or isinstance(b, AOpaque):
             return AOpaque('binop')
+        if isinstance(a, bool): a = AInt(int(a))
+        if isinstance(b, bool): b = AInt(int(b))
+        if (isinstance(a, ALin) or isinstance(b, ALin)) and (isinstance(op, (ast.BitAnd, ast.BitOr, ast.BitXor, ast.LShift, ast.RShift, ast.FloorDiv)) or
+                                                           (isinstance(op, ast.Add) and (as_lin(a) is None or as_lin(b) is None)) or
+                                                           (isinstance(op, (ast.Mod, ast.Mult)) and isinstance(b, AInt) and b.v is not None and b.v > 256)):
+            # bytes placed side by side (b0 + 256*b1 ...) are a bit vector as well: bit operations work on that view
+            va_ = lin_to_vec(a) if isinstance(a, ALin) else None
+            vb_ = lin_to_vec(b) if isinstance(b, ALin) else None
+            if (not isinstance(a, ALin) or va_ is not None) and (not isinstance(b, ALin) or vb_ is not None):
+                if va_ is not None: a = AInt(None, va_)
+                if vb_ is not None: b = AInt(None, vb_)
         if isinstance(a, ALin) or isinstance(b, ALin) or (isinstance(op, ast.Add) and isinstance(a, AInt) and isinstance(b, AInt) and (a.v is None or b.v is None)):
             la, lb = as_lin(a), as_lin(b)
             if la is not None and lb is not None:
@@ -1017,6 +1085,10 @@ class Interp:
                 if isinstance(op, ast.Add):
                     if all(x == 0 or y == 0 for x, y in zip(va, vb)):
                         return AInt(None, B.bor(va, vb))
+                if isinstance(op, ast.BitXor):
+                    return AInt(None, B.bxor(va, vb))
+                if isinstance(op, ast.Sub) and len(vb) <= len(va) and all(y == 0 or y == x for x, y in zip(va, vb)):
+                    return AInt(None, B.trim([0 if y != 0 else x for x, y in zip(va, list(vb) + [0] * (len(va) - len(vb)))]))
             except B.Top:
                 return AInt(None, None)
             return AInt(None, None)
@@ -1254,6 +1326,8 @@ class Interp:
             if n == 'int':
                 if len(args) == 1 and isinstance(args[0], AInt):
                     return args[0]
+                if len(args) == 1 and isinstance(args[0], bool):
+                    return AInt(int(args[0]))
                 base = args[1].v if len(args) > 1 and isinstance(args[1], AInt) else 10
                 return self.parse_int(args[0], base)
             if n == 'reversed':
@@ -1316,37 +1390,77 @@ class Interp:
             if isinstance(f.value, ast.Name) and f.value.id == 'math' and m in ('ceil', 'floor', 'trunc') and len(args) == 1 and isinstance(args[0], AInt) and args[0].v is not None:
                 import math as _m
                 return AInt(int(getattr(_m, m)(args[0].v)))
-            if isinstance(f.value, ast.Name) and f.value.id == 'struct' and m in ('pack', 'unpack') and len(args) == 2 and isinstance(args[0], AStr) and args[0].literal() is not None:
+            if isinstance(f.value, ast.Name) and f.value.id == 'struct' and m in ('pack', 'unpack', 'unpack_from', 'calcsize') and args and isinstance(args[0], AStr) and args[0].literal() is not None:
                 sf = _struct_fmt(args[0].literal())
                 if sf is None:
                     raise Unknown(f"struct format {args[0].literal()!r} at line {e.lineno}")
-                order, size, kind = sf
-                x = args[1]
+                order, fields = sf
+                total = sum(sz for sz, _ in fields)
+                if m == 'calcsize':
+                    return AInt(total)
                 if m == 'pack':
-                    if kind == 'float' and isinstance(x, AFloat) and x.width == 8 * size:
-                        vec = list(x.bits) + [0] * (8 * size - len(x.bits))
-                    elif kind == 'int' and isinstance(x, AInt) and x.vec() is not None and len(B.trim(x.vec())) <= 8 * size:
-                        vec = list(x.vec()) + [0] * (8 * size - len(x.vec()))
+                    vals = [a_ for a_ in args[1:]]
+                    if len(vals) != sum(1 for sz, k_ in fields if k_ != 'pad'):
+                        raise PyError('struct.error', getattr(e, 'lineno', 0))
+                    out_items = []
+                    vi = 0
+                    for size, kind in fields:
+                        if kind == 'pad':
+                            out_items.append(('c', 0)); continue
+                        x = vals[vi]; vi += 1
+                        if isinstance(x, bool):
+                            x = AInt(int(x))
+                        if kind == 'float' and isinstance(x, AFloat) and x.width == 8 * size:
+                            vec = list(x.bits) + [0] * (8 * size - len(x.bits))
+                        elif kind in ('int', 'sint') and isinstance(x, AInt) and x.v is not None:
+                            lo, hi = (0, (1 << (8 * size)) - 1) if kind == 'int' else (-(1 << (8 * size - 1)), (1 << (8 * size - 1)) - 1)
+                            if not (lo <= x.v <= hi):
+                                raise PyError('struct.error', getattr(e, 'lineno', 0))
+                            vv = x.v & ((1 << (8 * size)) - 1)
+                            vec = [(vv >> k_) & 1 for k_ in range(8 * size)]
+                        elif kind == 'int' and isinstance(x, AInt) and x.vec() is not None and len(B.trim(x.vec())) <= 8 * size:
+                            vec = list(B.trim(x.vec())) + [0] * (8 * size - len(B.trim(x.vec())))
+                        else:
+                            raise Unknown(f"struct.pack({args[0].literal()!r}, {x!r}) at line {e.lineno}")
+                        items = [norm_byte(vec[8 * i: 8 * i + 8]) for i in range(size)]
+                        if order == 'big':
+                            items.reverse()
+                        out_items.extend(items)
+                    return ABytes(out_items)
+                x = args[1] if len(args) > 1 else None
+                off = 0
+                if m == 'unpack_from':
+                    o_ = args[2] if len(args) > 2 else kw.get('offset', AInt(0))
+                    if not (isinstance(o_, AInt) and o_.v is not None and o_.v >= 0):
+                        raise Unknown(f"struct.unpack_from offset at line {e.lineno}")
+                    off = o_.v
+                if not isinstance(x, ABytes):
+                    raise Unknown(f"struct.{m}({args[0].literal()!r}, {x!r}) at line {e.lineno}")
+                if (m == 'unpack' and len(x.items) != total) or (m == 'unpack_from' and len(x.items) - off < total):
+                    raise PyError('struct.error', getattr(e, 'lineno', 0))
+                pos = off
+                res = []
+                for size, kind in fields:
+                    chunk = x.items[pos:pos + size]; pos += size
+                    if kind == 'pad':
+                        continue
+                    items = list(chunk) if order == 'little' else list(reversed(chunk))
+                    vec = []
+                    for it_ in items:
+                        bv = self.byte_to_int(it_).vec() if it_[0] in ('c', 'b', 'x') else None
+                        if bv is None:
+                            raise Unknown(f"struct.unpack of an unknown byte at line {e.lineno}")
+                        vec.extend(list(bv) + [0] * (8 - len(bv)))
+                    if kind == 'float':
+                        res.append(AFloat(vec, 8 * size))
+                    elif kind == 'int':
+                        res.append(AInt(None, vec) if any(isinstance(b, tuple) for b in vec) else AInt(sum(b << k for k, b in enumerate(vec))))
+                    elif kind == 'sint' and not any(isinstance(b, tuple) for b in vec):
+                        u_ = sum(b << k for k, b in enumerate(vec))
+                        res.append(AInt(u_ - (1 << (8 * size)) if u_ >> (8 * size - 1) else u_))
                     else:
-                        raise Unknown(f"struct.pack({args[0].literal()!r}, {x!r}) at line {e.lineno}")
-                    items = [norm_byte(vec[8 * i: 8 * i + 8]) for i in range(size)]
-                    if order == 'big':
-                        items.reverse()
-                    return ABytes(items)
-                if not (isinstance(x, ABytes) and len(x.items) == size):
-                    raise Unknown(f"struct.unpack({args[0].literal()!r}, {x!r}) at line {e.lineno}")
-                items = list(x.items) if order == 'little' else list(reversed(x.items))
-                vec = []
-                for it_ in items:
-                    bv = self.byte_to_int(it_).vec() if it_[0] in ('c', 'b') else None
-                    if bv is None:
-                        raise Unknown(f"struct.unpack of an unknown byte at line {e.lineno}")
-                    vec.extend(list(bv) + [0] * (8 - len(bv)))
-                if kind == 'float':
-                    return (AFloat(vec, 8 * size),)
-                if kind == 'int':
-                    return (AInt(None, vec) if any(isinstance(b, tuple) for b in vec) else AInt(sum(b << k for k, b in enumerate(vec))),)
-                raise Unknown(f"struct.unpack kind {kind} at line {e.lineno}")
+                        raise Unknown(f"struct.unpack kind {kind} at line {e.lineno}")
+                return tuple(res)
             if isinstance(f.value, ast.Name) and f.value.id == 'bytes' and m == 'fromhex':
                 x = args[0]
                 if isinstance(x, AStr):
